@@ -8,6 +8,7 @@ import (
 	"encoding/json"
 	"fmt"
 	"os"
+	"runtime"
 	"runtime/debug"
 	"sort"
 	"strings"
@@ -395,7 +396,9 @@ func Main(t *testing.T, p *Property) {
 		sc := p.pick(run)
 		seed := runSeed(cfg.Seed, run)
 		if progress {
-			fmt.Fprintf(os.Stderr, "PROGRESS run=%d scenario=%s\n", run, sc.Name)
+			var ms runtime.MemStats
+			runtime.ReadMemStats(&ms)
+			fmt.Fprintf(os.Stderr, "PROGRESS run=%d scenario=%s goroutines=%d heap_inuse_mb=%d sys_mb=%d\n", run, sc.Name, runtime.NumGoroutine(), ms.HeapInuse>>20, ms.Sys>>20)
 		}
 		tp := tape.New(seed)
 		c := RunOne(t, sc, tp, cfg.Tier, false)
